@@ -718,7 +718,7 @@ pub fn run(ctx: &Ctx, rep: &mut Report) {
   }
   let mut rng = ctx.rng("c04");
   // (a) synthetic JavaScript sibling lists with decoys, permuted
-  let n_docs = ctx.budget(16000, 400000);
+  let n_docs = ctx.budget(40000, 400000);
   let perms = if ctx.thorough { 24 } else { 5 };
   let lang = SupportLang::JavaScript;
   for d in 0..n_docs {
@@ -748,7 +748,7 @@ pub fn run(ctx: &Ctx, rep: &mut Report) {
   }
   // (b) corpus excerpts with patterns cut from them, variables renamed to a small shared pool
   let files = corpus::shard(&corpus::load_all(), ctx.shard, ctx.nshards);
-  let per_file = if ctx.thorough { 300 } else { 14 };
+  let per_file = if ctx.thorough { 300 } else { 40 };
   for f in &files {
     let Some(text) = crate::mon::c05::clean_excerpt(f.lang, &f.text, 1800) else {
       rep.count("sources_skipped_zero_width", 1);
